@@ -144,6 +144,7 @@ def random_input(rng, harness, variant, cfg):
     sc = random_scenario(rng, cfg)
     rep = {"harness": harness, "scenario": sc, "draws": []}
     kinds = ["Exploit", "PrivilegeEscalation", "ServiceScan", "OSScan", "SubnetScan", "ProcessScan", "NoOp"]
+    rep["actions_variant"] = rng.choice([0, 1])       # which exploit / escalation tables the environment-level oracles install
     if harness == "action_decode":
         rep["seed"] = rng.randrange(10 ** 6)
         return rep
